@@ -32,6 +32,8 @@ FLOORS["quick"].update({'same_object_again': 2500})
 FLOORS["thorough"].update({'same_object_again': 12500})
 FLOORS["quick"].update({'debug_tracing_cases': 150, 'zero_size_packets': 2000})
 FLOORS["thorough"].update({'debug_tracing_cases': 750, 'zero_size_packets': 10000})
+FLOORS["quick"].update({'parameter_reassignments': 100})
+FLOORS["thorough"].update({'parameter_reassignments': 500})
 
 
 def plan(tier):
